@@ -171,9 +171,12 @@ pub fn run(tier: &str) -> Result<Report, String> {
                     None
                 })
                 .join()
-                .unwrap_or(None)
+                .unwrap_or_else(|_| Some(Violation { case: json!({"kind": "machinery"}), what: "MACHINERY: history thread panicked".into(), size: 0 }))
             })
             .collect();
+        if bad.iter().any(|v| v.what.starts_with("MACHINERY")) {
+            return Err("a two-network history thread of the harness panicked".into());
+        }
         rep.evaluations += (n_pairs * fs_h.len() * 2) as u64;
         rep.add_count("two_network_histories", n_pairs as u64);
         rep.set("history_networks", json!({"same_encoding_networks": same_ctx.len(), "with_steady_states": firsts.len(), "steady_state_free": seconds.len(), "ordered_pairs_run": n_pairs, "formulae_on_second": fs_h.len()}));
